@@ -402,6 +402,71 @@ class TaintEngine:
                 out |= self.labels(f, ch.value, state)
         return out
 
+    def masked_param(self, f):
+        """The masking idiom written as a helper, mask(text, secret):
+            if not secret: return text          (nothing to hide)
+            return text.replace(secret, '***')  (str / bytes variants)
+        Every return is the text itself under a falsy secret, or the text
+        with the secret (or a value computed from it alone) replaced by a
+        constant.  Returns the name of the text parameter, else None: the
+        pass-through return then carries nothing the caller has to hide."""
+        cache = self.__dict__.setdefault('_masked', {})
+        if f.qname in cache:
+            return cache[f.qname]
+        cache[f.qname] = None
+        rets = [r for r in walk_local(f.node, include_root=False)
+                if isinstance(r, ast.Return)]
+        if len(f.params) < 2 or len(rets) < 2:
+            return None
+        pm = {}
+        for x in ast.walk(f.node):
+            for ch in ast.iter_child_nodes(x):
+                pm[ch] = x
+        for text in f.params:
+            for secret in f.params:
+                if secret == text:
+                    continue
+                replaced = 0
+                ok = True
+                for r in rets:
+                    v = r.value
+                    if isinstance(v, ast.Name) and v.id == text:
+                        n, guarded = r, False
+                        while n in pm:
+                            p_ = pm[n]
+                            if isinstance(p_, ast.If):
+                                t = p_.test
+                                neg = isinstance(t, ast.UnaryOp) and \
+                                    isinstance(t.op, ast.Not) and \
+                                    isinstance(t.operand, ast.Name) and \
+                                    t.operand.id == secret
+                                pos = isinstance(t, ast.Name) and \
+                                    t.id == secret
+                                if (neg and n in p_.body) or \
+                                        (pos and n in p_.orelse):
+                                    guarded = True
+                            n = p_
+                        ok = ok and guarded
+                    elif isinstance(v, ast.Call) and \
+                            isinstance(v.func, ast.Attribute) and \
+                            v.func.attr == 'replace' and \
+                            isinstance(v.func.value, ast.Name) and \
+                            v.func.value.id == text and len(v.args) == 2 \
+                            and isinstance(v.args[1], ast.Constant) and \
+                            {x.id for x in ast.walk(v.args[0])
+                             if isinstance(x, ast.Name)} == {secret}:
+                        replaced += 1
+                    else:
+                        ok = False
+                stores = [x for x in ast.walk(f.node)
+                          if isinstance(x, ast.Name) and
+                          isinstance(x.ctx, (ast.Store, ast.Del)) and
+                          x.id in (text, secret)]
+                if ok and replaced and not stores:
+                    cache[f.qname] = text
+                    return text
+        return None
+
     def is_keyed(self, name, state):
         return state.get(name + '::?') is not None
 
@@ -562,7 +627,9 @@ class TaintEngine:
                 self.visit_calls(f, n.ast, st, n)
             elif n.kind == 'return' and n.ast.value is not None:
                 self.visit_calls(f, n.ast.value, st, n)
-                summ.ret = summ.ret | self.labels(f, n.ast.value, st)
+                if not (isinstance(n.ast.value, ast.Name) and
+                        n.ast.value.id == self.masked_param(f)):
+                    summ.ret = summ.ret | self.labels(f, n.ast.value, st)
             elif n.kind == 'raise_stmt':
                 self.on_raise(f, n.ast, st, summ)
             elif n.kind == 'iter':
